@@ -155,146 +155,6 @@ func storesConstTo(b *ssa.BasicBlock, cell ssa.Value, bind map[*ssa.FreeVar]ssa.
 	return false
 }
 
-func ruleB2(w *World, r *Report) {
-	const rule = "B2"
-	for _, name := range []string{"(*Collection).VisitItemsAscendBlockEx", "(*Collection).VisitItemsRandom"} {
-		fn := w.Fn(name)
-		if fn == nil {
-			r.Unknown(rule, "anchor "+name, "-", "exported API not found")
-			continue
-		}
-		bind := closureBindings(fn)
-		key := name + " › block stride of the collecting pass = items presented per block"
-		// collecting pass: a closure that appends and resets its counter at a threshold
-		var stride *linForm
-		stridePos := ""
-		for _, cl := range fn.AnonFuncs {
-			appends := false
-			eachInstr(cl, func(in ssa.Instruction) {
-				if c, ok := in.(*ssa.Call); ok {
-					if b, isB := c.Common().Value.(*ssa.Builtin); isB && b.Name() == "append" {
-						appends = true
-					}
-				}
-			})
-			if !appends {
-				continue
-			}
-			for _, b := range cl.Blocks {
-				iff, ok := b.Instrs[len(b.Instrs)-1].(*ssa.If)
-				if !ok {
-					continue
-				}
-				bo, ok := iff.Cond.(*ssa.BinOp)
-				if !ok || (bo.Op != token.GEQ && bo.Op != token.GTR && bo.Op != token.EQL) {
-					continue
-				}
-				cell := cellOfLoad(bo.X, bind)
-				if cell == nil || !storesConstTo(b.Succs[0], cell, bind, 0) {
-					continue
-				}
-				t, okT := linOf(bo.Y, bind, 0)
-				if !okT || t.cell == nil {
-					continue
-				}
-				if bo.Op == token.GTR {
-					t.k++
-				}
-				// items per block: the one that starts it (counter 0) plus those seen with
-				// counter 1..T
-				s := linForm{t.cell, t.k + 1}
-				stride = &s
-				stridePos = w.InstrPos(iff)
-			}
-		}
-		if stride == nil {
-			r.Unknown(rule, key, w.Pos(fn.Pos()), "collecting pass not recognised: no visitor closure that appends a start key and resets its counter at a threshold")
-			continue
-		}
-		// presenting pass
-		var count *linForm
-		countPos := ""
-		for _, cl := range fn.AnonFuncs {
-			for _, b := range cl.Blocks {
-				iff, ok := b.Instrs[len(b.Instrs)-1].(*ssa.If)
-				if !ok {
-					continue
-				}
-				bo, ok := iff.Cond.(*ssa.BinOp)
-				if !ok || (bo.Op != token.EQL && bo.Op != token.GEQ) {
-					continue
-				}
-				if cellOfLoad(bo.X, bind) == nil {
-					continue
-				}
-				tb := b.Succs[0]
-				ret, isRet := tb.Instrs[len(tb.Instrs)-1].(*ssa.Return)
-				if !isRet || len(ret.Results) != 1 {
-					continue
-				}
-				if c, isC := ret.Results[0].(*ssa.Const); !isC || c.Value == nil || c.Value.String() != "false" {
-					continue
-				}
-				l, okL := linOf(bo.Y, bind, 0)
-				if !okL || l.cell == nil {
-					continue
-				}
-				c := linForm{l.cell, l.k + 1} // counter values 0..L are presented
-				count = &c
-				countPos = w.InstrPos(iff)
-			}
-		}
-		if count == nil {
-			// counted outer loop: for j := N; j > 0; j-- { one item of every block }
-			eachInstr(fn, func(in ssa.Instruction) {
-				p, ok := in.(*ssa.Phi)
-				if !ok || count != nil {
-					return
-				}
-				var init *linForm
-				dec := false
-				for _, e := range p.Edges {
-					if bo, isBo := e.(*ssa.BinOp); isBo && bo.Op == token.SUB && bo.X == ssa.Value(p) {
-						if k, isK := constInt(bo.Y); isK && k == 1 {
-							dec = true
-							continue
-						}
-					}
-					if l, okL := linOf(e, bind, 0); okL && l.cell != nil {
-						ll := l
-						init = &ll
-					}
-				}
-				if init == nil || !dec {
-					return
-				}
-				gt := false
-				for _, ref := range *p.Referrers() {
-					if bo, isBo := ref.(*ssa.BinOp); isBo && bo.Op == token.GTR && bo.X == ssa.Value(p) {
-						if k, isK := constInt(bo.Y); isK && k == 0 {
-							gt = true
-						}
-					}
-				}
-				if gt {
-					count = init
-					countPos = w.InstrPos(p)
-				}
-			})
-		}
-		if count == nil {
-			r.Unknown(rule, key, w.Pos(fn.Pos()), "presenting pass not recognised: neither a per-block visitor that stops at a threshold nor a counted loop over the blocks")
-			continue
-		}
-		if stride.cell == count.cell && stride.k == count.k {
-			r.OK(rule, key, stridePos, fmt.Sprintf("start keys are %s items apart and %s items are presented from each", stride, count))
-		} else {
-			r.Bad(rule, key, stridePos, fmt.Sprintf("start keys are %s items apart but %s items are presented from each start key (at %s): neighbouring blocks overlap or leave a gap once blocks are longer than the minimum", stride, count, countPos))
-		}
-	}
-	r.Floor(rule, 2)
-}
-
 // ---------------------------------------------------------------- E5
 
 // privateDest: the object written by a fallible read is private to the reading call:
